@@ -839,6 +839,8 @@ class _Outer:
         def __init__(self, x):
             self.x = x
 
+    _LO, _MID, _HI = 0, 1, 2
+    KIND = {'a': _LO, 'b': _HI}
     ROWS = (_Row('a', 1), _Row('b', 2))
     BY_TAG = {r.tag: r for r in ROWS}
     DEFAULT = _Plain(7)
@@ -849,7 +851,7 @@ class _Outer:
 
 
 def f_nested_classes():
-    return _Outer.width('b'), _Outer.ROWS[0].tag, isinstance(_Outer.ROWS[1], _Outer._Row), _Outer._Plain(3).x, _Outer._Row('z', 9).width
+    return _Outer._MID, _Outer.KIND['b'], _Outer.width('b'), _Outer.ROWS[0].tag, isinstance(_Outer.ROWS[1], _Outer._Row), _Outer._Plain(3).x, _Outer._Row('z', 9).width
 
 
 class _Mask:
